@@ -431,6 +431,82 @@ def transactFnX (connOk : Bool) (f : Faults) (b : BodyX) : Result :=
 def transactCtxX (env : Env) (f : Faults) (b : BodyX) : Result :=
   brkDo env.ctxDone env.ctxDead env.brkAllow (acceptable env.userAccept) (transactFnX env.connOk f b)
 
+/-! ### round 5c: the session the body is given — which connection its statements run on, what a connection made
+from the session answers, which context reaches the body and database/sql
+
+`Wiring` is what the code decides (the Tie derives it from the source on every run: `Tie.extractedWiring`);
+`codeWiring` is the code the theorems are about.  The driver-call log of the model is then placed on connections:
+the transaction lives on connection 0; a statement made on the pool (`*sql.DB`) is given ANOTHER connection by
+database/sql (the transaction's own is checked out) and runs outside the transaction. -/
+
+inductive Handle
+  | tx      -- the transaction's own *sql.Tx
+  | pool    -- the *sql.DB
+  deriving DecidableEq, Repr, Inhabited
+
+inductive CtxArg
+  | callers      -- the context the function was called with (or a child of it: startSpan)
+  | background   -- context.Background()
+  deriving DecidableEq, Repr, Inhabited
+
+structure Wiring where
+  bodySession     : Handle   -- what backs the Session `transactOnConn` hands to the body
+  stmtHandle      : Handle   -- what a statement method of that session hands to database/sql (`.tx`: its own t.Tx)
+  bodyCtx         : CtxArg   -- the context `transactOnConn` hands to the body, relative to its own
+  stmtCtx         : CtxArg   -- the context a …Ctx statement method hands to database/sql, relative to the one it got
+  plainStmtCtx    : CtxArg   -- … a context-less statement method
+  rawDBRefused    : Bool     -- `txConn.RawDB` returns (nil, errNoRawDBFromTx)
+  nestRefused     : Bool     -- `txConn.Transact[Ctx]` returns errCantNestTx without calling the body
+  stmtErrReturned : Bool     -- a statement method returns the error of exec / query / PrepareContext unchanged
+  deriving DecidableEq, Repr, Inhabited
+
+def codeWiring : Wiring :=
+  { bodySession := .tx, stmtHandle := .tx, bodyCtx := .callers, stmtCtx := .callers, plainStmtCtx := .background,
+    rawDBRefused := true, nestRefused := true, stmtErrReturned := true }
+
+/-- the connection a statement of the body arrives on -/
+def Wiring.stmtConn (w : Wiring) : Nat :=
+  match w.bodySession, w.stmtHandle with
+  | .tx, .tx => 0
+  | _, _ => 1
+
+/-- the log on connections: Begin / Commit / Rollback on the transaction's connection 0 -/
+def tagLog (w : Wiring) (l : List Ev) : List (Nat × Ev) :=
+  l.map fun e => (match e with | .exec _ _ => w.stmtConn | .query _ _ => w.stmtConn | _ => 0, e)
+
+/-- the statements that arrive on a connection with no transaction open on it (the harness driver logs them
+`O<i>`); `st`: the connection that has one -/
+def outsideTx : Option Nat → List (Nat × Ev) → List Ev
+  | _, [] => []
+  | st, (c, e) :: rest =>
+    match e with
+    | .begin true => outsideTx (some c) rest
+    | .commit _ => outsideTx none rest
+    | .rollback _ => outsideTx none rest
+    | .exec _ _ => (if st == some c then [] else [e]) ++ outsideTx st rest
+    | .query _ _ => (if st == some c then [] else [e]) ++ outsideTx st rest
+    | _ => outsideTx st rest
+
+def composeCtx : CtxArg → CtxArg → CtxArg
+  | .callers, c => c
+  | .background, _ => .background
+
+/-- the context database/sql is handed for a statement of the body, relative to the context of the ENTRY point
+(`viaCtx`: the body uses the …Ctx methods with the context it was given) -/
+def Wiring.ctxAtDriver (w : Wiring) (entry : CtxArg) (viaCtx : Bool) : CtxArg :=
+  if viaCtx then composeCtx entry (composeCtx w.bodyCtx w.stmtCtx) else w.plainStmtCtx
+
+/-- what a `Transact` / `RawDB` on a connection made from the body's session does: (driver calls, an error comes
+back, a *sql.DB / a run of the nested body comes back) -/
+def Wiring.nestOutcome (w : Wiring) : List Ev × Bool × Bool :=
+  if w.nestRefused then ([], true, false) else ([.begin true, .commit true], false, true)
+
+def Wiring.rawDBOutcome (w : Wiring) : Bool × Bool :=      -- (an error comes back, a *sql.DB comes back)
+  if w.rawDBRefused then (true, false) else (false, true)
+
+/-- what the body sees of a statement the driver (or database/sql) failed -/
+def Wiring.stmtErrSeen (w : Wiring) (failed : Bool) : Bool := failed && w.stmtErrReturned
+
 /-! ### round 5: a nil function given to `WithAcceptable` (finding; fixes/not-applied/C14-withacceptable-nil.patch) -/
 
 /-- a verdict function whose evaluation may call a nil function value: `none` = that call (a nil-call panic) -/
